@@ -44,8 +44,8 @@ var e1Exempt = map[string]string{
 func e2AppliesToStdlib(c *Ctx, call ssa.CallInstruction, name string) bool {
 	switch name {
 	case "strconv.Atoi", "encoding/json.Unmarshal", "strconv.ParseInt":
-		f := c.file(call.Pos())
-		return f == "lexer.go" || f == "parser.go"
+		sc := c.scopeOf(call.Parent())
+		return sc["parse"] && !sc["eval"]
 	}
 	if call.Parent().Pkg == c.SCLI {
 		return true // in jpgo every failure is the program's failure
@@ -253,21 +253,112 @@ func init() {
 	register("E-LATCH", ruleLatch)
 }
 
-// scopeOf: which part of the program a function belongs to.
-//   parse: lexer.go, parser.go and the API functions up to the parse result
-//   eval:  interpreter.go, functions.go, util.go and the API's Search functions
-//   cli:   cmd/jpgo
+// scopeOf: which part of the program a function belongs to, by role (not by
+// the file it happens to live in):
+//   parse: everything reachable from Parse / tokenize and the methods of the
+//          Parser, the Lexer and SyntaxError;
+//   eval:  everything reachable from the evaluator, the function caller, their
+//          constructors, the handlers of the function table and the sort adapters;
+//   both:  the exported API (it parses and evaluates) and anything reachable
+//          from neither side;
+//   cli:   cmd/jpgo.
 func (c *Ctx) scopeOf(fn *ssa.Function) map[string]bool {
 	if fn.Pkg == c.SCLI {
 		return map[string]bool{"cli": true}
 	}
-	switch c.file(fn.Pos()) {
-	case "lexer.go", "parser.go":
-		return map[string]bool{"parse": true}
-	case "api.go":
-		return map[string]bool{"parse": true, "eval": true}
-	case "interpreter.go", "functions.go", "util.go":
-		return map[string]bool{"eval": true}
+	if c.scopeMemo == nil {
+		c.scopeMemo = map[*ssa.Function]map[string]bool{}
+		recvNamed := func(f *ssa.Function) string {
+			if f.Signature.Recv() == nil {
+				return ""
+			}
+			t := f.Signature.Recv().Type()
+			if pt, ok := t.(*types.Pointer); ok {
+				t = pt.Elem()
+			}
+			if n, ok := t.(*types.Named); ok {
+				return n.Obj().Name()
+			}
+			return ""
+		}
+		isAPI := func(f *ssa.Function) bool {
+			if f == c.A.Compile || f == c.A.MustCompile || f == c.A.Search || f == c.A.JPSearch {
+				return true
+			}
+			return recvNamed(f) == c.A.JMESPathT.Obj().Name()
+		}
+		callees := func(f *ssa.Function) []*ssa.Function {
+			var out []*ssa.Function
+			for _, b := range f.Blocks {
+				for _, in := range b.Instrs {
+					var ops [16]*ssa.Value
+					for _, op := range in.Operands(ops[:0]) {
+						if op == nil || *op == nil {
+							continue
+						}
+						switch v := (*op).(type) {
+						case *ssa.Function:
+							out = append(out, v)
+						case *ssa.MakeClosure:
+							if g, ok := v.Fn.(*ssa.Function); ok {
+								out = append(out, g, boundTarget(g))
+							}
+						}
+					}
+				}
+			}
+			out = append(out, f.AnonFuncs...)
+			return out
+		}
+		reach := func(roots []*ssa.Function) map[*ssa.Function]bool {
+			seen := map[*ssa.Function]bool{}
+			var walk func(f *ssa.Function)
+			walk = func(f *ssa.Function) {
+				if f == nil || seen[f] || f.Pkg != c.SLib || isAPI(f) {
+					return
+				}
+				seen[f] = true
+				for _, g := range callees(f) {
+					walk(g)
+				}
+			}
+			for _, r := range roots {
+				walk(r)
+			}
+			return seen
+		}
+		var pRoots, eRoots []*ssa.Function
+		for _, f := range allFuncs(c.SLib) {
+			switch recvNamed(f) {
+			case c.A.ParserT.Obj().Name(), c.A.LexerT.Obj().Name(), c.A.SynErrT.Obj().Name():
+				pRoots = append(pRoots, f)
+			case c.A.InterpT.Obj().Name(), "functionCaller", c.A.FEntryT.Obj().Name(), c.A.ArgSpecT.Obj().Name():
+				eRoots = append(eRoots, f)
+			}
+			if f.Name() == "Less" || f.Name() == "Swap" || f.Name() == "Len" {
+				if f.Signature.Recv() != nil {
+					eRoots = append(eRoots, f)
+				}
+			}
+		}
+		pRoots = append(pRoots, c.A.Parse, c.A.Tokenize, c.A.NewParser, c.A.NewLexer)
+		eRoots = append(eRoots, c.A.Exec, c.A.CallFunction, c.A.NewInterp, c.A.NewFCaller, c.A.IsFalse, c.A.ObjsEqual)
+		pr, er := reach(pRoots), reach(eRoots)
+		for _, f := range allFuncs(c.SLib) {
+			switch {
+			case isAPI(f):
+				c.scopeMemo[f] = map[string]bool{"parse": true, "eval": true, "api": true}
+			case pr[f] && !er[f]:
+				c.scopeMemo[f] = map[string]bool{"parse": true}
+			case er[f] && !pr[f]:
+				c.scopeMemo[f] = map[string]bool{"eval": true}
+			default:
+				c.scopeMemo[f] = map[string]bool{"parse": true, "eval": true}
+			}
+		}
+	}
+	if m, ok := c.scopeMemo[fn]; ok {
+		return m
 	}
 	return map[string]bool{"parse": true, "eval": true}
 }
